@@ -245,6 +245,13 @@ def execute(ctx, case: dict) -> None:
                         cur = None
                     else:
                         cur = (v, w)
+            elif op == "limit":
+                # the limit is changed on the live object: later assignments are judged against the new limit
+                tgt = addr if addr is not None else obj
+                if tgt is not None:
+                    tgt.max_ncwb = step[1]
+                    lim = step[1]
+                    shape.append("L")
             elif cur is not None:
                 shape.append("q")
                 target = obj
@@ -405,6 +412,8 @@ def gen_cases(ctx):
                 steps.append(["set", base, w])
                 for _ in range(rng.randint(0, 2)):
                     steps.append([rng.choice(["ipnets", "ipnets", "views"])])
+                if rng.random() < 0.15:
+                    steps.append(["limit", rng.choice([0, 1, 2, 4, 8, 16])])
             steps.append(["ipnets"])
             yield {"k": "history", "max_ncwb": lim, "steps": steps, "via": rng.choice(["Wildcard", "Wildcard", "Address"])}
 
